@@ -1,12 +1,21 @@
 ENGINES = [
     {'name': 'X', 'path': 'lib/xworker.py', 'kind_free_text': 'CrossHair 0.0.110 symbolic execution of the real Python functions (z3 decides every branch), one OS process per condition, vacuity twin per condition, plain-CPython replay of every counterexample',
-     'serves_properties': ['C02', 'C06', 'C08', 'C09', 'C10', 'C11', 'C13', 'C15', 'C16', 'C17', 'C18', 'C19', 'C20']},
+     'serves_properties': ['C02', 'C06', 'C08', 'C09', 'C10', 'C11', 'C13', 'C14', 'C15', 'C16', 'C17', 'C18', 'C19', 'C20']},
     {'name': 'Z', 'path': 'lib/zworker.py', 'kind_free_text': 'z3 sequence-theory queries over SHA-1 pre-image terms recorded by executing the real digest code on symbolic strings (lib/zsym.py); sat models replayed on the real functions with the real hashlib',
      'serves_properties': ['C02', 'C03', 'C07']},
 ]
 NOTES = ('Technique family: solver-based checking of the real code. Every result is bounded; bounds, stubs and '
          'assumptions are in evidence/<id>.json and DESIGN.md. Exit 2 of ./check = harness error (never a verdict).')
 CLAIMS = {
+    'C14': dict(
+        engine='X',
+        technique='CrossHair+z3 enumeration of dependency structures and -M settings through the real LocalBuilder._generateAudit and bob.audit code (real json/gzip/pickle files in a scratch directory)',
+        text='For 4 steps where every later step uses every earlier one as nothing / argument / tool / sandbox, every subset of user meta variables incl. the names Bob reserves, executed or not: the audit trail written for a step '
+             'carries exactly the ids and result hash passed, the real recipe/package/step names (user variables cannot override them), the meta environment, its direct dependencies, and the records of exactly its transitive '
+             'dependencies (closed: the real __validate passes and an independent closure computation agrees); the records inside are the dependencies own records; the artifact id does not depend on key order. '
+             'Not covered: SCM audit records (git/url/import sub-processes), schema conformance, "every visited workspace has an audit trail" over build histories.',
+        design_ref='DESIGN.md section 4, C14',
+        note='Trusted: stub steps. Outside: GitAudit/UrlAudit scanners, audit generation ordering inside the cook functions (world harness).'),
     'C20': dict(
         engine='X',
         technique='CrossHair+z3 enumeration of recipe graphs (dependency kinds symbolic) through the real Jenkins job name calculation, job population and build order code',
